@@ -210,6 +210,24 @@ Theorem C09_replay_answers_unambiguous_lookups : forall W ops r0 regs subs requi
 Proof. exact replay_answers_lemma. Qed.
 Print Assumptions C09_replay_answers_unambiguous_lookups.
 
+(* the registry SYSTEM the correspondence runs (Model/RegSys.step: caches, invalidation, generations,
+   bases, both flavours) acts on the storage (adapters, subscribers, _provided, extendors) of every
+   registry exactly as the storage operation the step stands for (Model/Bookkeeping.as_bop), and every
+   other operation leaves all storages alone — so the theorems above, stated for [brun], speak about
+   the storage the tested system carries *)
+From ZI Require Import Model.Lookup Model.RegSys Proofs.BookkeepingLink.
+
+Theorem C09_regsys_step_storage : forall W call s o i,
+  storage (rs_reg (get (fst (step W call s o)) i))
+  = match as_bop o with
+    | Some (r, b) => if Nat.eqb i r && Nat.ltb r (length s)
+                     then storage (bstep W (rs_reg (get s r)) b)
+                     else storage (rs_reg (get s i))
+    | None => storage (rs_reg (get s i))
+    end.
+Proof. exact regsys_step_storage. Qed.
+Print Assumptions C09_regsys_step_storage.
+
 (* ------------------------------------------------------------------ non-vacuity witnesses *)
 (* world: 0 = Interface; 1,2 required interfaces A,B; 3,4,5 provided interfaces P1,P2,P3 (all unrelated) *)
 Definition W0 : world :=
